@@ -274,6 +274,17 @@ fn worker(i: usize, of: usize, after: Option<(usize, usize)>) -> i32 {
                 continue;
             }
         }
+        if let Some((ab, ae)) = after {
+            if bi == ab && ae == usize::MAX {
+                continue; // the fault-free run of this base configuration did not return
+            }
+        }
+        {
+            // the fault-free run (made while the fault sets are enumerated) is execution 0: watched too
+            let mut o = stdout.lock();
+            let _ = writeln!(o, "S {} {} {}", bi, 0, key_of(bi, &[]));
+            let _ = o.flush();
+        }
         let sets = fault_sets(b, thorough);
         for (e, fs) in sets.iter().enumerate() {
             if let Some((ab, ae)) = after {
@@ -458,6 +469,13 @@ pub fn run_check(args: &[String], replay: Option<Value>) -> i32 {
                 );
                 outs.push((b, e, o));
                 if hangs < 50 {
+                    // a hang of the fault-free run: none of the fault sets of that base can be enumerated
+                    let e = if e == 0 {
+                        rep.caps.push(format!("base configuration {}: the fault-free run hangs, its fault sets were not run", b));
+                        usize::MAX
+                    } else {
+                        e
+                    };
                     children[i] = Some(spawn(i, Some((b, e)), tx.clone()));
                     last_seen[i] = Instant::now();
                 } else {
